@@ -268,7 +268,8 @@ def oracle_bin(ctx, case, out):
                 return ('viol', 'ValueError on a dimensionally invalid cell (TypeError expected)')
             sa, sb = si_of(a), si_of(b)
             exact = exact_of(op, sa, sb)
-            kinds = {want, ka} - {'num'}
+            # (the left operand's kind matters only where an intermediate of that kind exists: sums, differences, scaling)
+            kinds = ({want, ka} if (op in ('add', 'sub') or kb == 'num' or ka == 'num') else {want}) - {'num'}
             if exact is None or any(not sign_ok(k, exact) for k in kinds) or (kb == 'num' and ka in SIGN and F(b[1]) <= 0) \
                     or (ka == 'num' and kb in SIGN and F(a[1]) <= 0):
                 return None
@@ -583,7 +584,8 @@ def eval_cmp(ctx, cases):
             continue
         # the property: operands differing by more than rounding are ordered as their magnitudes;
         # operands equal up to rounding compare equal
-        if gap > F(1, 10 ** 9) * scale:
+        if gap > F(1, 10 ** 12) * scale:
+            # (conversions round at ~1e-16 relative: a relative gap above 1e-12 is far beyond rounding)
             want = CMPS[op](sa, sb)
             regime = 'distinct'
         elif gap <= F(4, 10 ** 16) * scale:
@@ -654,7 +656,7 @@ def run_C05(ctx):
                 if mode == 'same':
                     w = float(F(v) * SI[k][u] / SI[k2][u2])
                 else:
-                    w = float(F(v) * SI[k][u] / SI[k2][u2]) * rng.choice([1 + 1e-6, 1 - 1e-6, 2, 0.5, -1, 1.001])
+                    w = float(F(v) * SI[k][u] / SI[k2][u2]) * rng.choice([1 + 1e-6, 1 - 1e-6, 2, 0.5, -1, 1.001, 1 + 3e-9, 1 - 3e-9, 1 + 1e-10, 1 - 1e-10, 1 + 2e-11, 1 - 2e-11])
                     if w == 0:
                         w = 1.0
                 if not sign_ok(k2, w):
